@@ -59,6 +59,12 @@ class LeafScenario(Scenario):
                 op = test.ops[0]
                 table = {ast.Eq: sg == 0, ast.NotEq: sg != 0, ast.Gt: sg > 0, ast.GtE: True, ast.Lt: False, ast.LtE: sg == 0}
                 return table[type(op)]
+            rdiff = ast.BinOp(left=test.comparators[0], op=ast.Sub(), right=test.left)          # `ca < ca_plus_cb`: the mirrored spelling
+            sg = self.sign_of(rdiff, env)
+            if sg is not None:
+                op = test.ops[0]
+                table = {ast.Eq: sg == 0, ast.NotEq: sg != 0, ast.Lt: sg > 0, ast.LtE: True, ast.Gt: False, ast.GtE: sg == 0}
+                return table[type(op)]
             if isinstance(test.ops[0], (ast.Eq, ast.NotEq)) and ast.unparse(test.comparators[0]) not in ("0.0", "0") and ast.unparse(test.left) not in ("0.0", "0"):
                 # `other.mean != self.mean`: two different symbolic values differ in the generic case the scenario stands for;
                 # identical expressions are equal
